@@ -691,3 +691,7 @@ PROPS["C18"]["rule"] += " Some js requests give their code as an array of lines 
 PROPS["C02"]["rule"] += " One fact in twenty has an object under \"rule\" (a rule body, well-formed or not): whatever is decided when it is added must hold for the location loaded from storage, too."
 PROPS["C17"]["rule"] += " In the concurrent-create part a checked request that is over before the first CreateLocation has begun must have failed."
 PROPS["C15"]["rule"] += " The crolt-glue histories also write rules with schedules that crolt refuses ('tomorrow', an expression without an occurrence to come): the add fails and nothing changes - a rule of that id that was there keeps its job."
+PROPS["C05"]["rule"] += " For the Go-typed variant the pattern, the data and the initial bindings are copied with their types before the match and compared with reflect.DeepEqual afterwards (a core.Map that has become a map[string]interface{} is a modification)."
+PROPS["C06"]["rule"] += " With the bolt back end every case ends with the records Load hands out being kept while all of them are removed and others are written (six rounds, in this location and another one); the kept keys and values must read as they did."
+PROPS["C10"]["rule"] += " `trigger` requests send an event that names its rule (what a cron service delivers), with or without a property that event rules look for: a disabled or absent rule produces no value, an enabled one exactly its own (an event rule only if its condition matches the event), and a one-shot scheduled rule is gone afterwards."
+PROPS["C16"]["rule"] += " The crolt part also schedules jobs for absolute times written with a zone offset (-11 h to +13 h); a firing is early if it comes before the instant that was asked for, whatever the time index says."
